@@ -394,7 +394,7 @@ func startChild(batch string, start int, watchdog time.Duration) (exit int, stde
 	}
 	ef, _ := os.Create(errPath)
 	cmd := exec.Command("bash", "-c", `ulimit -s 1024; ulimit -v 3670016; exec "$0"`, exe)
-	cmd.Env = append(os.Environ(), "C27_CHILD="+batch, "C27_START="+strconv.Itoa(start), "GOTRACEBACK=all", "GOMAXPROCS=2")
+	cmd.Env = append(os.Environ(), "C27_CHILD="+batch, "C27_START="+strconv.Itoa(start), "GOTRACEBACK=all", "GOMAXPROCS=1")
 	cmd.Stdout, cmd.Stderr = ef, ef
 	cmd.SysProcAttr = &syscall.SysProcAttr{Pdeathsig: syscall.SIGKILL}
 	if err := cmd.Start(); err != nil {
